@@ -655,6 +655,75 @@ func C09(c *run.Check) {
 			}
 		}
 	}
+	// long documents: EVERY number of items from 1 to 400 (plus a few larger
+	// ones) - elements with two attributes, text, comments and PIs in rotation -
+	// compared node by node, so that nothing that depends on how much a document
+	// holds (a re-used buffer, a table of fixed size, a read-ahead boundary of the
+	// decoder) goes unnoticed
+	{
+		sizes := []int{}
+		for k := 1; k <= 400; k++ {
+			sizes = append(sizes, k)
+		}
+		sizes = append(sizes, 1023, 1024, 1025, 4097, 20000)
+		run.ParallelW(len(sizes), func(_, si int) {
+			if c.Violations() > 0 || c.TimeUp() {
+				return
+			}
+			k := sizes[si]
+			var sb strings.Builder
+			root := adoc.E("r")
+			sb.WriteString(`<r>`)
+			for i := 0; i < k; i++ {
+				switch i % 4 {
+				case 0, 1:
+					e := adoc.E("i", adoc.T(fmt.Sprint("v", i)))
+					e.Add(adoc.A("a", fmt.Sprint(i)))
+					e.Add(adoc.A("b", fmt.Sprint("x", i)))
+					root.Add(e)
+					fmt.Fprintf(&sb, `<i a="%d" b="x%d">v%d</i>`, i, i, i)
+				case 2:
+					root.Add(adoc.C(fmt.Sprint("c", i)))
+					fmt.Fprintf(&sb, `<!--c%d-->`, i)
+				case 3:
+					root.Add(adoc.P("p", fmt.Sprint(i)))
+					fmt.Fprintf(&sb, `<?p %d?>`, i)
+				}
+			}
+			sb.WriteString(`</r>`)
+			d := adoc.NewDoc()
+			d.ImplicitXML = true
+			d.Root.Add(root)
+			want := d.Finish()
+			data := []byte(sb.String())
+			c.Evaluations.Add(1)
+			cur, err := readXML(data, -1, -1)
+			if err != nil {
+				report("long", data[:min(len(data), 200)], -1, -1, nil, fmt.Sprintf("well-formed document of %d items rejected: %v", k, err))
+				return
+			}
+			if msg := c09Compare(cur, want, false); msg != "" {
+				if len(msg) > 500 {
+					msg = msg[:500] + " ..."
+				}
+				report("long", data[:min(len(data), 200)], -1, -1, nil, fmt.Sprintf("document of %d items: %s", k, msg))
+			}
+		})
+		c.Set("long_documents", len(sizes))
+	}
+	// undefined named entities: only lt, gt, amp, apos and quot are predefined; every
+	// other name - in particular the names HTML defines - is undeclared here
+	for _, name := range []string{"nbsp", "iexcl", "cent", "pound", "yen", "sect", "copy", "reg", "deg", "plusmn", "micro", "para", "middot", "laquo", "raquo", "frac12", "times", "divide",
+		"Agrave", "eacute", "Eacute", "uuml", "szlig", "ntilde", "ccedil", "oslash", "alpha", "beta", "pi", "Omega", "bull", "hellip", "prime", "larr", "rarr", "harr", "forall", "part", "exist", "empty",
+		"nabla", "isin", "prod", "sum", "minus", "radic", "infin", "cap", "cup", "int", "ne", "equiv", "le", "ge", "sub", "sup", "lang", "rang", "loz", "spades", "hearts", "euro", "trade", "ndash", "mdash",
+		"lsquo", "rsquo", "ldquo", "rdquo", "dagger", "permil", "zwnj", "zwj", "lrm", "thinsp", "ensp", "emsp", "shy", "AMP", "LT", "Quot", "x", "amp2", "_", "a.b"} {
+		for _, doc := range []string{"<a>x&" + name + ";y</a>", `<a t="&` + name + `; 2020"/>`, "<a><b>&" + name + ";</b></a>"} {
+			c.Evaluations.Add(1)
+			if _, err := readXML([]byte(doc), -1, -1); err == nil {
+				report("malformed", []byte(doc), -1, -1, nil, fmt.Sprintf("reference to the undeclared entity %q accepted with a nil error", name))
+			}
+		}
+	}
 	// undefined entity, invalid character, bad encoding
 	for _, bad := range []string{"<a>&nope;</a>", "<a>\x01</a>", "<a>\xff</a>", `<?xml version="1.0" encoding="no-such-charset"?><a/>`, "<a b=1/>", "<a><b></a></b>", "<a", "<a>", "<a/><", "<a>&#xFFFFFFFF;</a>", "<a b='1' b='2'/>x<"} {
 		c.Evaluations.Add(1)
@@ -671,7 +740,7 @@ func C09(c *run.Check) {
 	c.Sample(c09Join(c09Serialise(docs[len(docs)/3], variants[101])))
 	c.Set("documents", len(docs))
 	c.Set("serialisation_variants", len(variants))
-	c.Rule = fmt.Sprintf("every XML-serialisable forest with <=%d nodes over {a,b,text,comment,PI} x 8 namespace schemes (none; prefixed; default + xmlns=\"\" un-declaration; override + xml:lang; aliases + default; inner declaration; default+prefixes with un-declaration below; explicit xmlns:xml re-declaration) = %d abstract documents x %d serialisations (text as literal/char-refs/CDATA/split, empty-element tags, XML declaration absent/version/UTF-8/ISO-8859-1/windows-1252/US-ASCII with harness-transcoded bytes, DOCTYPE, prolog+epilog comments/PIs/white space, both quote kinds): parallel walk of the cursor tree against the abstract document incl. one namespace node per in-scope binding per element owned by that element; malformed side: EVERY truncation point inside markup or inside the document element, every unbalancing tag deletion / adjacent tag swap, undefined entity/invalid character/unknown charset must error; reader deviations: one short read and one I/O error at every byte offset", n, len(docs), len(variants))
+	c.Rule = fmt.Sprintf("every XML-serialisable forest with <=%d nodes over {a,b,text,comment,PI} x 8 namespace schemes (none; prefixed; default + xmlns=\"\" un-declaration; override + xml:lang; aliases + default; inner declaration; default+prefixes with un-declaration below; explicit xmlns:xml re-declaration) = %d abstract documents x %d serialisations (text as literal/char-refs/CDATA/split, empty-element tags, XML declaration absent/version/UTF-8/ISO-8859-1/windows-1252/US-ASCII with harness-transcoded bytes, DOCTYPE, prolog+epilog comments/PIs/white space, both quote kinds): parallel walk of the cursor tree against the abstract document incl. one namespace node per in-scope binding per element owned by that element; malformed side: EVERY truncation point inside markup or inside the document element, every unbalancing tag deletion / adjacent tag swap, undefined entities (85 names incl. the HTML ones, in text and attribute values)/invalid character/unknown charset must error; every document length 1-400 items (and 1023-20000) compared node by node; reader deviations: one short read and one I/O error at every byte offset", n, len(docs), len(variants))
 	c.Assume("white-space-only text children of the root (prolog/epilog) are not judged; truncation exactly between prolog items is not judged (encoding/xml has no notion of a missing document element)")
 }
 
